@@ -290,6 +290,22 @@ class Unit:
             self._src[rel] = X.Source(p)
         return self._src[rel]
 
+    def source_for(self, kv):
+        """Source of an item: a repo file, or (macro=..., arm=..., bind=...) a macro arm of that file
+        instantiated textually with the given bindings (what rustc does for non-recursive arms)."""
+        if 'macro' not in kv:
+            return self.src(kv['file'])
+        key = (kv['file'], kv['macro'], kv.get('arm', '0'), kv['bind'])
+        if key not in self._src:
+            s = self.src(kv['file'])
+            arms = X.macro_arms(s, kv['macro'])
+            arm = arms[int(kv.get('arm', 0))]
+            binding = dict(p.split('=', 1) for p in kv['bind'].split(';') if p)
+            body = X.instantiate(arm[1], binding)
+            self._src[key] = X.Source('<macro %s!(%s)>' % (kv['macro'], kv['bind']), body)
+            self.rules.hit('R-macro')
+        return self._src[key]
+
     def emit(self, text, origin):
         for ln in text.split('\n'):
             self.lines.append((ln, origin))
@@ -304,7 +320,7 @@ class Unit:
         return text
 
     def do_struct(self, kv):
-        s = self.src(kv['file'])
+        s = self.source_for(kv)
         st, en = s.find_block('struct', kv['name'])
         text = s.text[st:en]
         self.items.append(dict(label='struct ' + kv['name'], file=kv['file'], digest=X.digest(text)))
@@ -314,6 +330,11 @@ class Unit:
             # make struct and fields pub so open specs may mention them (unit is a single crate)
             text = re.sub(r'^struct', 'pub struct', text)
             b = X.blank_comments(text)
+            mt = re.match(r'^(pub struct\s+\w+\s*(?:<[^>]*>)?\s*)\((.*)\)\s*;\s*$', text.strip(), re.S)
+            if mt and '{' not in b:
+                fields = [f.strip() for f in mt.group(2).split(',') if f.strip()]
+                text = mt.group(1) + '(' + ', '.join('pub ' + f for f in fields) + ');'
+                b = X.blank_comments(text)
             if '{' in b:
                 bo = b.index('{')
                 bc = X.match_close(b, bo)
@@ -323,7 +344,7 @@ class Unit:
         self.emit(text, dict(kind='repo', label='struct ' + kv['name']))
 
     def do_impl(self, kv):
-        s = self.src(kv['file'])
+        s = self.source_for(kv)
         st, bo, en = s.find_impl(kv['header'], int(kv.get('nth', 0)))
         head = s.text[st:bo]
         self.items.append(dict(label='impl-header ' + X.norm(kv['header']), file=kv['file'], digest=X.digest(X.norm(head))))
@@ -343,7 +364,7 @@ class Unit:
         self.emit(head + '{', dict(kind='repo', label='impl ' + kv['header']))
 
     def do_item(self, kv):
-        s = self.src(kv['file'])
+        s = self.source_for(kv)
         lo, hi = s.container_range(kv.get('in', ''))
         kw = kv['kind']
         m = re.search(r'\b' + kw + r'\s+' + re.escape(kv['name']) + r'\b', s.blank[lo:hi])
@@ -356,18 +377,7 @@ class Unit:
         self.emit('    ' + text, dict(kind='repo', label=kv['name']))
 
     def get_fn_text(self, kv):
-        if 'macro' in kv:
-            s = self.src(kv['file'])
-            arms = X.macro_arms(s, kv['macro'])
-            arm = arms[int(kv.get('arm', 0))]
-            binding = dict(p.split('=', 1) for p in kv['bind'].split(';') if p)
-            body = X.instantiate(arm[1], binding)
-            ms = X.Source('<macro %s>' % kv['macro'], body)
-            lo, hi = ms.container_range(kv.get('in', ''))
-            a, k, e = ms.find_fn(kv['name'], lo, hi, int(kv.get('nth', 0)))
-            self.rules.hit('R-macro')
-            return ms.text[k:e], ms.text[a:k]
-        s = self.src(kv['file'])
+        s = self.source_for(kv)
         lo, hi = s.container_range(kv.get('in', ''))
         a, k, e = s.find_fn(kv['name'], lo, hi, int(kv.get('nth', 0)))
         return s.text[k:e], s.text[a:k]
